@@ -16,6 +16,7 @@ import (
 	"log"
 	"net"
 	"net/http"
+	"net/url"
 	"os"
 	"regexp"
 	"runtime"
@@ -121,59 +122,19 @@ func Main(c *run.Ctx) {
 			case out.TimedOut:
 				c.Undecided("child watchdog expired inside a case")
 			default:
-				head, frame := deathHead(out.Stderr)
-				if head == "" {
-					head = fmt.Sprintf("exit %d (signaled %v)", out.Exit, out.Signaled)
-				}
-				if frame == "" {
-					frame = "no-qryn-frame"
-				}
-				if strings.Contains(out.Stderr, "watchdog") && strings.Contains(head, "ping") {
-					c.Undecided("reader watchdog fired")
-					break
-				}
-				if m := runawayRe.FindStringSubmatch(out.Stderr); m != nil && m[1] == fmt.Sprint(out.OpenIdx) && strings.Contains(head, "out of memory") {
-					// the live heap grew by more than heapGrowthLimit while this case was open
-					if m[4] != "" {
-						frame = m[4]
-					}
-					sig := "process-death/" + sigEndpoint(open.Endpoint) + "/" + frame + "/out-of-memory/grown-during-request"
-					c.Violation(sig, fmt.Sprintf("the reader process died on one request to %s: %s; the live heap had grown from %s to %s bytes while the request was open (computing in %s); case: %s", open.Endpoint, head, m[2], m[3], frame, clip(string(open.Case), 900)),
-						map[string]any{"case_index": out.OpenIdx, "case": open, "stderr_tail": tailS(out.Stderr, 6000)})
-					c.Case(open.Trigger + "|death")
-					c.Cover("deaths", sig, 1)
+				switch verdict, key := reportDeath(c, out, open); verdict {
+				case "skip-wedge":
 					mu.Lock()
-					skip[open.WedgeKey] = true
+					skip[key] = true
 					mu.Unlock()
-					break
-				}
-				if n := oomBlock(head); n > 0 && n < 1<<30 {
-					// the address-space cap was hit by a modest allocation: the space was used up by
-					// earlier requests of this child, the open case is not shown to be the cause
-					c.Undecided("address space of the child exhausted by a modest allocation")
-					c.Cover("deaths-undecided", sigEndpoint(open.Endpoint)+"|"+clip(head, 80), 1)
-					break
-				}
-				sig := "process-death/" + sigEndpoint(open.Endpoint) + "/" + frame
-				if strings.Contains(head, "out of memory") {
-					// an allocation the request asked for: say which kind of request (a PromQL subquery is pre-allocated by
-					// the vendored engine, one point per inner step, before any sample limit applies)
-					sig += "/out-of-memory"
-					dec := strings.NewReplacer("%5B", "[", "%5D", "]", "%3A", ":", "%5b", "[", "%5d", "]", "%3a", ":").Replace(string(open.Case))
-					if subqueryRe.MatchString(dec) {
-						sig += "/promql-subquery"
+				case "death":
+					mu.Lock()
+					hits[open.Trigger]++
+					if hits[open.Trigger] >= 3 {
+						skip[open.Trigger] = true
 					}
+					mu.Unlock()
 				}
-				c.Violation(sig, fmt.Sprintf("the reader process died on one request to %s: %s at %s; case: %s", open.Endpoint, head, frame, clip(string(open.Case), 900)),
-					map[string]any{"case_index": out.OpenIdx, "case": open, "stderr_tail": tailS(out.Stderr, 6000)})
-				c.Case(open.Trigger + "|death")
-				c.Cover("deaths", sig, 1)
-				mu.Lock()
-				hits[open.Trigger]++
-				if hits[open.Trigger] >= 3 {
-					skip[open.Trigger] = true
-				}
-				mu.Unlock()
 			}
 			start = out.OpenIdx + 1
 		}
@@ -198,6 +159,73 @@ func Main(c *run.Ctx) {
 	c.Floor("client went away mid-response", c.Pick(20, 1000), 0)
 	c.Floor("database error at row k", c.Pick(50, 2500), 0)
 	c.Floor("requests on a database whose first schema lookup fails", c.Pick(10, 500), 0)
+}
+
+// reportDeath judges a child that ended inside a case without reporting it itself. It returns "undecided",
+// "skip-wedge" (with the input class not to run again) or "death".
+func reportDeath(c *run.Ctx, out run.ChildOutcome, open openCase) (string, string) {
+	head, frame := deathHead(out.Stderr)
+	if head == "" {
+		head = fmt.Sprintf("exit %d (signaled %v)", out.Exit, out.Signaled)
+	}
+	if frame == "" {
+		frame = "no-qryn-frame"
+	}
+	if strings.Contains(out.Stderr, "watchdog") && strings.Contains(head, "ping") {
+		c.Undecided("reader watchdog fired")
+		return "undecided", ""
+	}
+	m := runawayRe.FindStringSubmatch(out.Stderr)
+	if m != nil && m[1] != fmt.Sprint(out.OpenIdx) {
+		m = nil
+	}
+	if u := inUseRe.FindStringSubmatch(head); m == nil && u != nil {
+		// children hand over to a fresh one when they hold more than 3 GiB after a case: what is in use beyond that
+		// was acquired while the open case ran
+		if n, _ := strconv.ParseInt(u[1], 10, 64); n >= 5<<30 {
+			m = []string{"", "", "at most 3221225472 (hand-over bound)", u[1], ""}
+		}
+	}
+	if m != nil && strings.Contains(head, "out of memory") {
+		// the live heap grew by more than heapGrowthLimit while this case was open
+		if m[4] != "" {
+			frame = m[4]
+		}
+		sig := "process-death/" + sigEndpoint(open.Endpoint) + "/" + frame + "/out-of-memory/grown-during-request"
+		if pads(string(open.Case)) {
+			sig = paddingSig
+		}
+		c.Violation(sig, fmt.Sprintf("the reader process died on one request to %s: %s; the live heap had grown from %s to %s bytes while the request was open (computing in %s); case: %s", open.Endpoint, head, m[2], m[3], frame, clip(string(open.Case), 900)),
+			map[string]any{"case_index": out.OpenIdx, "case": open, "stderr_tail": tailS(out.Stderr, 6000)})
+		c.Case(open.Trigger + "|death")
+		c.Cover("deaths", sig, 1)
+		return "skip-wedge", open.WedgeKey
+	}
+	if n := oomBlock(head); n > 0 && n < 1<<30 {
+		// the address-space cap was hit by a modest allocation: the space was used up by
+		// earlier requests of this child, the open case is not shown to be the cause
+		c.Undecided("address space of the child exhausted by a modest allocation")
+		c.Cover("deaths-undecided", sigEndpoint(open.Endpoint)+"|"+clip(head, 80), 1)
+		return "undecided", ""
+	}
+	sig := "process-death/" + sigEndpoint(open.Endpoint) + "/" + frame
+	if strings.Contains(head, "out of memory") {
+		// an allocation the request asked for: say which kind of request (a PromQL subquery is pre-allocated by
+		// the vendored engine, one point per inner step, before any sample limit applies)
+		sig += "/out-of-memory"
+		dec := strings.NewReplacer("%5B", "[", "%5D", "]", "%3A", ":", "%5b", "[", "%5d", "]", "%3a", ":").Replace(string(open.Case))
+		if subqueryRe.MatchString(dec) {
+			sig += "/promql-subquery"
+		}
+		if pads(string(open.Case)) {
+			sig = paddingSig
+		}
+	}
+	c.Violation(sig, fmt.Sprintf("the reader process died on one request to %s: %s at %s; case: %s", open.Endpoint, head, frame, clip(string(open.Case), 900)),
+		map[string]any{"case_index": out.OpenIdx, "case": open, "stderr_tail": tailS(out.Stderr, 6000)})
+	c.Case(open.Trigger + "|death")
+	c.Cover("deaths", sig, 1)
+	return "death", ""
 }
 
 // concurrentLane runs the rounds of the concurrent lane, one child each (a runtime-fatal error ends the child).
@@ -252,6 +280,22 @@ func runConcurrentRound(c *run.Ctx, rd, perClient int) {
 	c.Cover("deaths", sig, 1)
 }
 
+// paddingRe: a line_format template whose printf pads to 100000 columns or more. The memory such a request needs
+// is (rows read) x (width asked for), both chosen by the client: whether it ends as an out-of-memory death or as
+// a runaway depends on the machine, so both are filed under one signature.
+var paddingRe = regexp.MustCompile(`printf[^}]*%[-+ #0]*[0-9]{6,}`)
+
+const paddingSig = "memory-unbounded/line_format-padding"
+
+func pads(caseJSON string) bool {
+	dec := caseJSON
+	if u, err := url.QueryUnescape(strings.ReplaceAll(caseJSON, "+", " ")); err == nil {
+		dec = u
+	}
+	dec = strings.NewReplacer(`\\\"`, `"`, `\\"`, `"`, `\"`, `"`, `\u0026`, "&").Replace(dec)
+	return paddingRe.MatchString(dec) || paddingRe.MatchString(caseJSON)
+}
+
 var subqueryRe = regexp.MustCompile(`\[[^\]\[]*:[^\]\[]*\]`)
 
 // deathHead extracts the first panic / fatal error line of a dying process and the innermost
@@ -277,6 +321,7 @@ func deathHead(stderr string) (head, frame string) {
 }
 
 var runawayRe = regexp.MustCompile(`VERIF-RUNAWAY case=(\d+) heap_at_start=(\d+) heap_now=(\d+) computing=(\S*)`)
+var inUseRe = regexp.MustCompile(`\((\d+) in use\)`)
 var oomRe = regexp.MustCompile(`cannot allocate (\d+)-byte block`)
 
 // oomBlock returns the size of the allocation that failed (0 if the head is not an out-of-memory report).
@@ -952,7 +997,11 @@ func (f *fuzzer) runaway(cs *ccase, gi int, cb []byte, g run.Goroutine, stuck []
 		return false
 	}
 	fr := g.QrynFrames()[0]
-	f.c.Violation("runaway/"+sigEndpoint(cs.Gen.Endpoint)+"/"+fr, fmt.Sprintf("%s: no complete HTTP answer after %v; the request is still computing in %s and the live heap has grown from %d MiB when it began to %d, %d, %d MiB (samples 2 s apart), on a result set of at most %d rows; request %s; database script %s",
+	sig := "runaway/" + sigEndpoint(cs.Gen.Endpoint) + "/" + fr
+	if pads(string(cb)) {
+		sig = paddingSig
+	}
+	f.c.Violation(sig, fmt.Sprintf("%s: no complete HTTP answer after %v; the request is still computing in %s and the live heap has grown from %d MiB when it began to %d, %d, %d MiB (samples 2 s apart), on a result set of at most %d rows; request %s; database script %s",
 		cs.Gen.Endpoint, clientWait, fr, h0>>20, hs[0]>>20, hs[1]>>20, hs[2]>>20, shapeRows(cs.DB.Shape), clip(cs.Gen.Req.String(), 400), cs.DB.class()),
 		map[string]any{"case_index": gi, "case": json.RawMessage(cb), "goroutine": clip(g.Raw, 4000)})
 	return true
@@ -1050,14 +1099,10 @@ func Replay(c *run.Ctx, path string) {
 	out := c.RunChild(run.ChildSpec{Prop: "C12", Name: "fuzz", Cfg: childCfg{Start: doc.Case.Index, N: 1, Tail: tail}, Timeout: 5 * time.Minute, MemKB: memKB})
 	c.Case("replay")
 	c.Case("replay|" + doc.Sig)
-	if !out.Completed && out.OpenIdx >= 0 && out.Exit != exitStall {
+	if !out.Completed && out.OpenIdx >= 0 && out.Exit != exitStall && out.Exit != exitLeak && out.Exit != exitRecycle && !out.TimedOut {
 		var open openCase
 		json.Unmarshal(out.OpenCase, &open)
-		head, frame := deathHead(out.Stderr)
-		if frame == "" {
-			frame = "no-qryn-frame"
-		}
-		c.Violation("process-death/"+open.Endpoint+"/"+frame, fmt.Sprintf("the reader process died: %s at %s; case: %s", head, frame, clip(string(open.Case), 900)), map[string]any{"case_index": out.OpenIdx, "stderr_tail": tailS(out.Stderr, 6000)})
+		reportDeath(c, out, open)
 	}
 	fmt.Printf("replay of case %d: child exit %d completed %v\n%s\n", doc.Case.Index, out.Exit, out.Completed, tailS(out.Stderr, 3000))
 }
